@@ -217,24 +217,23 @@ def run_family(binary, family, lines, shards=16, timeout=1800, env=None):
     size = (len(lines) + shards - 1) // shards
     chunks = [lines[i:i + size] for i in range(0, len(lines), size)]
 
-    def one(chunk):
-        rc, out = sh([str(binary), family], inp="\n".join(chunk) + "\n", timeout=timeout, env=env)
+    def one(chunk, tmo=None):
+        tmo = tmo or timeout
+        rc, out = sh([str(binary), family], inp="\n".join(chunk) + "\n", timeout=tmo, env=env)
         outs = out.split("\n")
         if outs and outs[-1] == "":
             outs.pop()
-        if rc != 0 or len(outs) != len(chunk):
-            # the runner died (stack overflow, abort, timeout): find the case by running one at a time
-            outs = []
-            for c in chunk:
-                rc1, o1 = sh([str(binary), family], inp=c + "\n", timeout=60, env=env)
-                o1 = o1.strip("\n")
-                if rc1 == 124:
-                    outs.append("timeout")
-                elif rc1 != 0 or "\n" in o1 or o1 == "":
-                    outs.append(f"died rc={rc1}")
-                else:
-                    outs.append(o1)
-        return outs
+        if rc == 0 and len(outs) == len(chunk):
+            return outs
+        # the runner died (stack overflow, abort, timeout): find the case(s) by bisection, so that one bad case
+        # among n costs O(log n) further runs, not n
+        if len(chunk) == 1:
+            if rc == 124:
+                return ["timeout"]
+            return [f"died rc={rc}"]
+        half = len(chunk) // 2
+        sub = max(60, tmo // 2) if len(chunk) > 64 else 60 * min(len(chunk), 4)
+        return one(chunk[:half], sub) + one(chunk[half:], sub)
 
     with ThreadPoolExecutor(max_workers=len(chunks)) as ex:
         res = list(ex.map(one, chunks))
